@@ -268,11 +268,17 @@ class MailboxData(MailboxDataInterface[Message]):
                                              self.maildir_flags)
             key = maildir.add(maildir_msg)
             filename = key + ':' + maildir_msg.get_info()
-        async with UidList.with_write(self._path) as uidl:
-            fields = {'E': str(email_id), 'T': str(thread_id)}
-            new_rec = Record(uidl.next_uid, fields, filename)
-            uidl.next_uid += 1
-            uidl.set(new_rec)
+        try:
+            async with UidList.with_write(self._path) as uidl:
+                fields = {'E': str(email_id), 'T': str(thread_id)}
+                new_rec = Record(uidl.next_uid, fields, filename)
+                uidl.next_uid += 1
+                uidl.set(new_rec)
+        except BaseException:
+            # The message never got a UID, do not leave its file behind.
+            async with self.messages_lock.write_lock():
+                maildir.discard(key)
+            raise
         return Message.from_maildir(
             new_rec.uid, maildir_msg, maildir, key, email_id, thread_id,
             self.maildir_flags)
@@ -290,10 +296,16 @@ class MailboxData(MailboxDataInterface[Message]):
         async with destination.messages_lock.write_lock():
             dest_key = dest_maildir.add(copy_msg)
             dest_filename = dest_key + ':' + copy_msg.get_info()
-        async with UidList.with_write(destination._path) as uidl:
-            new_rec = Record(uidl.next_uid, record.fields, dest_filename)
-            uidl.next_uid += 1
-            uidl.set(new_rec)
+        try:
+            async with UidList.with_write(destination._path) as uidl:
+                new_rec = Record(uidl.next_uid, record.fields, dest_filename)
+                uidl.next_uid += 1
+                uidl.set(new_rec)
+        except BaseException:
+            # The copy never got a UID, do not leave its file behind.
+            async with destination.messages_lock.write_lock():
+                dest_maildir.discard(dest_key)
+            raise
         return new_rec.uid
 
     async def move(self, uid: int, destination: MailboxData, *,
